@@ -44,6 +44,9 @@ def cases(draw, tier):
   if draw(st.integers(0, 3)) == 0:
     # the Quantizer object was already used once with another recipe
     case['prior'] = draw(st.sampled_from(PRIORS))
+  if draw(st.integers(0, 5)) == 0:
+    # zero-element constants: buffers with an empty data vector
+    mspec['empty_consts'] = draw(st.integers(1, 3))
   if draw(st.integers(0, 3)) == 0:
     # the float model itself stores its constants after the flatbuffer (the form
     # every > 2 GB input has)
@@ -74,7 +77,8 @@ def check_case(case):
   if not small.ok:
     return core.result(False, ['raised:' + str(small.stage)])
   labels = (['returned'] + (['quantizer_used_before'] if case.get('prior') else []) +
-            (['input_model_external_form'] if case.get('external_input') else []))
+            (['input_model_external_form'] if case.get('external_input') else []) +
+            (['zero_length_constants'] if case['model'].get('empty_consts') else []))
   a, b = fb.parse(small.qbytes), fb.parse(large.qbytes)
   raw = large.qbytes
   if core.jdump(_strip(a)) != core.jdump(_strip(b)):
